@@ -1,6 +1,9 @@
 package props
 
 import (
+	"strings"
+
+	"verif/checker/internal/an"
 	"verif/checker/internal/load"
 
 	"golang.org/x/tools/go/ssa"
@@ -25,10 +28,96 @@ func c15(c *Ctx) {
 	}
 	fns := c.censusRegion(entries, nil)
 	conds := c.populationConditions()
+	r.Rule("R15.T", "every loop whose bound comes from the wire leaves on the sticky decoder error", 2)
+	c.loopTermination("R15.T", fns)
 	n, d, a := c.runCensus("R15.C", fns, nil, conds)
 	r.Extra["census_functions"] = len(fns)
 	r.Extra["census_sites"] = n
 	r.Extra["census_discharged"] = d
 	r.Extra["census_accepted"] = a
 	r.Extra["population_conditions"] = conds
+}
+
+// loopTermination (R15.T): a loop whose bound comes from the wire must leave on the sticky decoder error.
+func (c *Ctx) loopTermination(rule string, fns []*ssa.Function) {
+	tr := an.NewTracer()
+	for _, f := range fns {
+		n := 0
+		for _, i := range an.Ifs(f) {
+			b := i.Block()
+			// is the If on a cycle?
+			onCycle := false
+			for _, s := range b.Succs {
+				if reachesBlock(s, b, map[*ssa.BasicBlock]bool{}) {
+					onCycle = true
+				}
+			}
+			if !onCycle {
+				continue
+			}
+			cd, ok := an.Classify(i)
+			if !ok || cd.Kind != "ord" {
+				continue
+			}
+			// loop test i < N: which operand is the bound?
+			var bound ssa.Value
+			if _, isPhi := an.Unconv(cd.X).(*ssa.Phi); isPhi {
+				bound = cd.Y
+			} else if bo, ok := cd.X.(*ssa.BinOp); ok && bo.Op.String() == "+" {
+				bound = cd.Y
+			} else if _, isPhi := an.Unconv(cd.Y).(*ssa.Phi); isPhi {
+				bound = cd.X
+			}
+			if bound == nil {
+				continue
+			}
+			n++
+			key := sprintf("loop:%s#%d", an.ShortName(f), n)
+			if !an.WireSizedLocal(bound) {
+				c.R.Hold(rule, key, c.pos(i.Cond.Pos()), "bound derives from len()/NumField()/constants: "+simplifyOrigin(tr.OriginString(bound)))
+				continue
+			}
+			// cycle blocks
+			cyc := map[*ssa.BasicBlock]bool{}
+			for _, x := range f.Blocks {
+				if reachesBlock(b, x, map[*ssa.BasicBlock]bool{}) && reachesBlock(x, b, map[*ssa.BasicBlock]bool{}) {
+					cyc[x] = true
+				}
+			}
+			exits := false
+			for x := range cyc {
+				if len(x.Instrs) == 0 {
+					continue
+				}
+				j, ok := x.Instrs[len(x.Instrs)-1].(*ssa.If)
+				if !ok || j == i {
+					continue
+				}
+				cj, ok := an.Classify(j)
+				if !ok || cj.Kind != "nil" {
+					continue
+				}
+				o := tr.OriginString(cj.X)
+				if strings.Contains(o, "tl.Decoder.err") || strings.Contains(o, "Decoder).CheckErr") {
+					if !cyc[cj.EdgeWhen(false).To()] || leadsOut(cj.EdgeWhen(false).To(), cyc) {
+						exits = true
+					}
+				}
+			}
+			c.R.Check(exits, rule, key, c.pos(i.Cond.Pos()), "the bound comes from the wire ("+simplifyOrigin(tr.OriginString(bound))+"): the loop must leave as soon as the decoder's sticky error is set, or 2^31 iterations make no progress")
+		}
+	}
+}
+
+func leadsOut(b *ssa.BasicBlock, cyc map[*ssa.BasicBlock]bool) bool {
+	// the block ends the function or jumps out of the cycle without returning to it
+	if len(b.Succs) == 0 {
+		return true
+	}
+	for _, s := range b.Succs {
+		if !cyc[s] {
+			return true
+		}
+	}
+	return false
 }
